@@ -13,14 +13,15 @@ ANCHORS = ["src/pylife/mesh/gradient.py", "src/pylife/mesh/meshmapping.py", "src
            "src/pylife/mesh/meshsignal.py"]
 SHARDS = {"quick": 12, "thorough": 16}
 WATCHDOG = {"quick": 1500, "thorough": 3300}
-REQUIRED_CLASSES = {t: ["elements:hexahedra", "elements:tetrahedra", "ids:contiguous_from_1", "ids:permuted", "ids:gaps", "ids:from_0",
+REQUIRED_CLASSES = {t: ["elements:hexahedra", "elements:tetrahedra", "elements:mixed", "mixed:lowest_id_is_tetrahedron",
+                        "mixed:lowest_id_is_hexahedron", "ids:contiguous_from_1", "ids:permuted", "ids:gaps", "ids:from_0",
                         "ids:large", "rows:shuffled", "positions:perturbed", "hotspot:several_components", "hotspot:tie_in_peaks_possible",
                         "hotspot:threshold_exactly_met"]
                     for t in ("quick", "thorough")}
 REQUIRED_MONITORS = ["gradient(lstsq):exact_on_linear_field", "gradient_3D:exact_on_linear_field", "mapping:same_points_identity",
                      "mapping:linear_field_interior", "surface==boundary_nodes", "hotspot:labelled==at_or_above_threshold",
                      "hotspot:labels==connected_components", "hotspot:numbered_by_descending_peak"]
-RULE = ("generated block meshes of 2..4 cells per direction with hexahedra or Kuhn-split tetrahedra, node positions perturbed by up to "
+RULE = ("generated block meshes of 2..4 cells per direction with hexahedra, Kuhn-split tetrahedra or a random mix of both per cell, node positions perturbed by up to "
         "20 % of the spacing, node and element ids contiguous / permuted / with gaps / starting at 0 / solver-like large, rows "
         "shuffled; random linear fields for the two gradient operators and the mesh mapping; random nodal fields with several "
         "peaks and threshold fractions for the hot-spot detection (union-find oracle over shared-node / shared-element adjacency). "
@@ -52,7 +53,7 @@ def generate(ctx):
     rng = ctx.rng
     n = ctx.scaled({"quick": 480, "thorough": 6400}[ctx.tier])
     for i in range(n):
-        yield {"cells": [int(v) for v in rng.integers(2, 5 if i % 3 else 4, size=3)], "elements": ["hex", "tet"][i % 2],
+        yield {"cells": [int(v) for v in rng.integers(2, 5 if i % 3 else 4, size=3)], "elements": ["hex", "tet", "hex", "mixed"][i % 4],
                "ids": ["contiguous", "permuted", "gaps", "from_0", "large"][i % 5], "rseed": int(rng.integers(0, 2**31)),
                "surface": bool(i % 2 == 0 and i % 4 == 0)}
 
@@ -83,7 +84,7 @@ def make_mesh(case, rng):
     elements = []
     for k, j, i in itertools.product(range(nz), range(ny), range(nx)):
         corner = [grid[(i + a, j + b, k + c)] for a, b, c in HEX]
-        if case["elements"] == "hex":
+        if case["elements"] == "hex" or (case["elements"] == "mixed" and rng.random() < 0.5):
             elements.append(corner)
         else:       # Kuhn split: six tetrahedra along the main diagonal 0-6
             v = corner
@@ -109,7 +110,12 @@ def run_case(case, ctx):
     warnings.simplefilter("ignore")
     rng = np.random.Generator(np.random.PCG64(case["rseed"]))
     df, coords, nid, boundary, elements, eid = make_mesh(case, rng)
-    ctx.tag("elements:hexahedra" if case["elements"] == "hex" else "elements:tetrahedra", "positions:perturbed",
+    if case["elements"] == "mixed":
+        sizes = {len(nodes) for nodes in elements}
+        if sizes == {4, 8}:
+            ctx.tag("elements:mixed", "mixed:lowest_id_is_tetrahedron" if len(elements[int(np.argmin(eid))]) == 4
+                    else "mixed:lowest_id_is_hexahedron")
+    ctx.tag({"hex": "elements:hexahedra", "tet": "elements:tetrahedra", "mixed": "elements:mixed_drawn"}[case["elements"]], "positions:perturbed",
             {"contiguous": "ids:contiguous_from_1", "permuted": "ids:permuted", "gaps": "ids:gaps", "from_0": "ids:from_0", "large": "ids:large"}[case["ids"]])
     ctx.nontrivial(len(boundary) < len(nid))
     g = rng.normal(0, 1, 3) * 10 ** rng.uniform(-1, 2)
